@@ -154,6 +154,8 @@ func (z *Z) inl(in []Inline) string {
 			sb.WriteString("<" + v.Addr + ">")
 		case Raw:
 			sb.WriteString(v.S)
+		case NotLink:
+			sb.WriteString(v.Src)
 		case Soft:
 			sb.WriteString(sp(z.s.Intn(2)) + "\n") // zero or one trailing space: still a soft break
 		case NearMiss:
